@@ -2,6 +2,7 @@
 package main
 
 import (
+	"fmt"
 	"go/ast"
 	"strings"
 
@@ -147,6 +148,61 @@ func main() {
 				e.Strs("innerQuantileConds", conds, "haveNotMinMaxQuantiles: condition that makes a quantile an inner one")
 			}
 		}
+		// positional labels: the aggregation labels the i-th leaf of its OR tree with tids[i]
+		// (WrapWithSource / ValueBySource), so GetLIDsFromTIDs has to return exactly one node per tid, in order,
+		// for every window - also when the token has no LIDs in it.
+		perTid := func(rel, recv string) (bool, []string, error) {
+			f, err := r.Load(rel)
+			if err != nil {
+				return false, nil, err
+			}
+			fd := f.Func(recv, "GetLIDsFromTIDs")
+			if fd == nil {
+				return false, nil, fmt.Errorf("%s.GetLIDsFromTIDs not found", recv)
+			}
+			ok := false
+			var shape []string
+			jumps := 0
+			ast.Inspect(fd.Body, func(n ast.Node) bool {
+				switch x := n.(type) {
+				case *ast.BranchStmt:
+					jumps++
+					shape = append(shape, x.Tok.String())
+				case *ast.RangeStmt:
+					if f.Render(x.X) != "tids" {
+						return true
+					}
+					for _, st := range x.Body.List { // direct children of the loop body only
+						if a, isA := st.(*ast.AssignStmt); isA && len(a.Lhs) == 1 {
+							l, rhs := f.Render(a.Lhs[0]), f.Render(a.Rhs[0])
+							if l == "nodes" && strings.HasPrefix(rhs, "append(nodes, ") || l == "nodes[i]" {
+								ok = true
+								shape = append(shape, "per-tid "+l+" "+a.Tok.String())
+							}
+						}
+					}
+				}
+				return true
+			})
+			return ok && jumps == 0, shape, nil
+		}
+		for _, t := range []struct{ name, rel, recv string }{
+			{"activeLeafPerTid", "frac/active_index.go", "activeTokenIndex"},
+			{"sealedLeafPerTid", "frac/sealed_index.go", "sealedTokenIndex"},
+		} {
+			if ok, shape, err := perTid(t.rel, t.recv); err != nil {
+				e.Missing(t.name, err)
+			} else {
+				e.Bool(t.name, ok, t.recv+".GetLIDsFromTIDs appends / assigns exactly one node per tid, unconditionally (no continue / break): "+strings.Join(shape, "; "))
+			}
+		}
+		if f, err := r.Load("node/sourced_node_wrapper.go"); err != nil {
+			e.Missing("wrapWithSource", err)
+		} else if fd := f.Func("", "WrapWithSource"); fd == nil {
+			e.Missing("wrapWithSource", "WrapWithSource not found")
+		} else {
+			e.Strs("wrapWithSource", assignsTo(f, fd.Body, "sourced[i]"), "WrapWithSource: the source of a leaf is its position")
+		}
 		se, err := r.Load("frac/processor/search.go")
 		if err != nil {
 			e.Missing("search.go", err)
@@ -202,5 +258,5 @@ func main() {
 			})
 			e.Strs("extractTimeRule", rule, "provideExtractTimeFunc: guard and the returned bin expressions")
 		}
-	}, "consts/consts.go", "seq/qpr.go", "frac/processor/eval_tree.go", "frac/processor/search.go", "frac/processor/aggregator.go")
+	}, "consts/consts.go", "seq/qpr.go", "frac/processor/eval_tree.go", "frac/processor/search.go", "frac/processor/aggregator.go", "frac/active_index.go", "frac/sealed_index.go", "node/sourced_node_wrapper.go")
 }
